@@ -8526,6 +8526,9 @@ func (p *parser) parseStmtsUpTo(end js_lexer.T, opts parseStmtOpts) []js_ast.Stm
 			break
 		}
 
+		// A directive is a string literal token, not a parenthesized string
+		startsWithString := p.lexer.Token == js_lexer.TStringLiteral
+
 		stmt := p.parseStmt(opts)
 
 		// Skip TypeScript types entirely
@@ -8539,7 +8542,9 @@ func (p *parser) parseStmtsUpTo(end js_lexer.T, opts parseStmtOpts) []js_ast.Stm
 		if isDirectivePrologue {
 			isDirectivePrologue = false
 			if expr, ok := stmt.Data.(*js_ast.SExpr); ok {
-				if str, ok := expr.Value.Data.(*js_ast.EString); ok && !str.PreferTemplate {
+				if str, ok := expr.Value.Data.(*js_ast.EString); ok && !str.PreferTemplate && !startsWithString {
+					expr.IsStringThatIsNotADirective = true
+				} else if ok && !str.PreferTemplate {
 					stmt.Data = &js_ast.SDirective{Value: str.Value, LegacyOctalLoc: str.LegacyOctalLoc}
 					isDirectivePrologue = true
 
